@@ -110,6 +110,10 @@ func TestC17_Concurrent(t *testing.T) {
 			kind := rapid.SampledFrom([]int{0, 0, 0, 1, 1, 2, 3, 3}).Draw(t, "artefact")
 			var exprs []hcl.Expression
 			var body hcl.Body
+			// the sources, so that a second, untouched copy of the artefact can be parsed: the
+			// "alone" baseline must not warm up anything inside the copy the goroutines share
+			var exprSrcs []string
+			var jsonSrc, nativeSrc string
 			var spec hcldec.Spec
 			var schema *hcl.BodySchema
 			hasSplat := false
@@ -135,6 +139,7 @@ func TestC17_Concurrent(t *testing.T) {
 						hasSplat = true
 					}
 					exprs = append(exprs, e)
+					exprSrcs = append(exprSrcs, src)
 					c.Set(fmt.Sprintf("expr%d", i), src)
 				}
 			default:
@@ -154,6 +159,7 @@ func TestC17_Concurrent(t *testing.T) {
 					parts = append(parts, `"blk": [{"x": "${`+firstName(base)+`}"}, {"x": 1}]`)
 					src := "{" + strings.Join(parts, ",") + "}"
 					c.Set("json", src)
+					jsonSrc = src
 					f, diags := hcljson.Parse([]byte(src), "t.json")
 					if diags.HasErrors() {
 						c.Failf("parse-error", "%s", diagStr(diags))
@@ -170,6 +176,7 @@ func TestC17_Concurrent(t *testing.T) {
 				} else {
 					src, _ := render.File(tree, rchooser{t}, drawBodyOpts(t))
 					c.Set("source", src)
+					nativeSrc = src
 					f, diags := hclsyntax.ParseConfig([]byte(src), "t.hcl", hcl.InitialPos)
 					if diags.HasErrors() {
 						c.Failf("parse-error", "%s", diagStr(diags))
@@ -193,6 +200,31 @@ func TestC17_Concurrent(t *testing.T) {
 					}
 					sort.Slice(exprs, func(i, j int) bool { return exprs[i].Range().Start.Byte < exprs[j].Range().Start.Byte })
 				}
+			}
+			fresh := func() ([]hcl.Expression, hcl.Body) {
+				var es []hcl.Expression
+				var b hcl.Body
+				switch {
+				case len(exprSrcs) > 0:
+					for _, src := range exprSrcs {
+						e, _ := parseExprSrc(src)
+						es = append(es, e)
+					}
+				case jsonSrc != "":
+					f, _ := hcljson.Parse([]byte(jsonSrc), "t.json")
+					b = f.Body
+				default:
+					f, _ := hclsyntax.ParseConfig([]byte(nativeSrc), "t.hcl", hcl.InitialPos)
+					b = f.Body
+					if kind == 3 {
+						b = dynblock.Expand(b, evalCtx(base))
+					}
+					for _, a := range f.Body.(*hclsyntax.Body).Attributes {
+						es = append(es, a.Expr)
+					}
+					sort.Slice(es, func(i, j int) bool { return es[i].Range().Start.Byte < es[j].Range().Start.Byte })
+				}
+				return es, b
 			}
 			// goroutines and their contexts
 			G := rapid.SampledFrom([]int{2, 2, 4, 8, 16}).Draw(t, "goroutines")
@@ -241,7 +273,7 @@ func TestC17_Concurrent(t *testing.T) {
 					plans[gi] = append(plans[gi], op)
 				}
 			}
-			run := func(gi int, op c17op) (res c17result) {
+			run := func(exprs []hcl.Expression, body hcl.Body, gi int, op c17op) (res c17result) {
 				defer func() {
 					if r := recover(); r != nil {
 						res = c17result{val: fmt.Sprintf("PANIC %v", r)}
@@ -290,7 +322,7 @@ func TestC17_Concurrent(t *testing.T) {
 			expected := make([][]c17result, G)
 			for gi := range plans {
 				for _, op := range plans[gi] {
-					expected[gi] = append(expected[gi], run(gi, op))
+					expected[gi] = append(expected[gi], run(exprs, body, gi, op))
 					if strings.HasPrefix(expected[gi][len(expected[gi])-1].val, "PANIC") {
 						c.Failf("panic-sequential", "sequential call panicked: %s", expected[gi][len(expected[gi])-1].val)
 					}
@@ -301,6 +333,7 @@ func TestC17_Concurrent(t *testing.T) {
 			defer runtime.GOMAXPROCS(old)
 			c.Class(fmt.Sprintf("gomaxprocs_%d", procs))
 			got := make([][]c17result, G)
+			sharedExprs, sharedBody := fresh()
 			var inflight, maxInflight int32
 			var wg sync.WaitGroup
 			start := make(chan struct{})
@@ -320,7 +353,7 @@ func TestC17_Concurrent(t *testing.T) {
 								break
 							}
 						}
-						got[gi] = append(got[gi], run(gi, op))
+						got[gi] = append(got[gi], run(sharedExprs, sharedBody, gi, op))
 						atomic.AddInt32(&inflight, -1)
 					}
 				}(gi)
